@@ -29,7 +29,7 @@ func drawNamedEncCase(t *rapid.T) encCase {
 	}
 	c.Type = cat.Get(names[gen.Uniform(t, "genType", len(names))]).Spec
 	c.GoType = c.Type.GoString()
-	c.Evolved = []int{0, 0, 0, 1, 2}[gen.Uniform(t, "evolvedNamed", 5)]
+	c.Evolved = []int{0, 0, 0, 1, 2, 3}[gen.Uniform(t, "evolvedNamed", 6)]
 	n := gen.UniformRange(t, "nrecordsNamed", 0, 6)
 	c.Records = gen.Records(t, c.Type, n, gen.ValueOpts{Big: true})
 	c.FlushAfter = nil
